@@ -41,6 +41,9 @@ def through_names(fl, d, depth=3):
                 if getattr(x, "k", None) == "call":
                     nm = x.callee.short if x.callee else "<indirect>"
                     return ("call", nm, tuple(through_names(fl, fl.describe(a, depth=8), depth - 1) for a in x.args))
+                if x.rv is not None and x.rv.k in ("unop", "binop"):
+                    # `let needs_full = !can_use_basic(..)`: keep the operator
+                    return through_names(fl, panic.norm(fl.describe_def(x, depth=8)), depth - 1)
                 if x.rv is not None and x.rv.ops:
                     return through_names(fl, fl.describe(x.rv.ops[0], depth=8), depth - 1)
         return d
@@ -474,7 +477,12 @@ def rule4(ctx, prog, flows, effects, add_node):
 
         (bb, site, obj, kind) = e
         f = field_of(obj) if obj[0] == "P" and obj[1] == sp else None
-        if f not in INDEX_FIELDS or kind in SLOT_KINDS:
+        if f not in INDEX_FIELDS:
+            return None
+        if kind in ("Entry::or_insert", "Entry::or_insert_with", "Entry::or_default") and f in ("nodes_map", "nodes_map_rev"):
+            # `m.entry(k).or_insert(v)` is `if !m.contains_key(k) { m.insert(k, v) }`
+            return (f, "HashMap::insert")
+        if kind in SLOT_KINDS:
             return None
         return (f, kind)
 
